@@ -27,6 +27,23 @@ pub fn gen(seed: u64, tier: Tier, k: u64) -> Value {
     json!({"case": case.to_json(), "layout": layout, "steps": rng.range(1, tier.pick(12, 30)), "h_seed": rng.next()})
 }
 
+/// A location derived from the current one: textually different but equivalent as a path, or the name of an existing file.
+fn gen_related_location(rng: &mut Rng, current: &str, existing: &[String]) -> Option<String> {
+    let s = match rng.below(6) {
+        0 if current.contains('/') => current.replacen('/', "//", 1),
+        1 if current.contains('/') => current.replacen('/', "/./", 1),
+        2 if !current.is_empty() && !current.ends_with('/') => format!("{current}/"),
+        3 if !current.is_empty() => format!("./{current}"),
+        4 | 5 if !existing.is_empty() => rng.pick(existing).clone(),
+        _ => return None,
+    };
+    if s.len() <= 213 {
+        Some(s)
+    } else {
+        None
+    }
+}
+
 fn gen_location(rng: &mut Rng) -> String {
     let target = match rng.below(8) {
         0 => 0,
@@ -121,7 +138,15 @@ pub fn run(desc: &Value, ctx: &Ctx) -> CaseOut {
                 let i = rng.pick(&infos0).clone();
                 (i.uuid, Some(i))
             };
-            let newloc = gen_location(&mut rng);
+            let existing: Vec<String> = list_files(&dir).iter().map(|f| f.file_name().unwrap().to_string_lossy().into_owned()).collect();
+            let current = info.as_ref().map(|i| model[&i.uuid].clone()).unwrap_or_default();
+            let newloc = match if rng.chance(1, 3) { gen_related_location(&mut rng, &current, &existing) } else { None } {
+                Some(l) => {
+                    out.obs.inc("related_locations(path-equivalent or existing file)");
+                    l
+                }
+                None => gen_location(&mut rng),
+            };
             out.obs.set("location_lengths", format!("{}", newloc.len()));
             let res = util::catch(|| jbk::tools::set_location(&target, uuid::Uuid::from_bytes(uuid), newloc.as_str().into()));
             let res = match res {
